@@ -78,7 +78,7 @@ type Op struct {
 	TAM      int      `json:"tam"` // client topic alias maximum
 	RPI      int      `json:"rpi"` // request problem information: -1 absent, 0, 1
 	RRI      int      `json:"rri"` // request response information: -1 absent, 0, 1
-	Will     *WillOpt `json:"will"`
+	Will     *WillOpt `json:"will,omitempty"`
 	User     string   `json:"user"`
 	Pass     string   `json:"pass"`
 	Until    string   `json:"until"`    // connect/netdrop: stop at this gate (interleaving replay)
